@@ -201,8 +201,8 @@ pub mod simsync {
     use super::{ctx, Pending};
     use std::cell::UnsafeCell;
     use std::ops::{Deref, DerefMut};
-    pub use std::sync::Arc;
-    use std::sync::{LockResult, PoisonError};
+    pub use std::sync::atomic;
+    pub use std::sync::{Arc, LockResult, PoisonError, TryLockError, TryLockResult, Weak};
 
     pub trait Observable {
         fn obs(&self) -> i64;
